@@ -1,6 +1,6 @@
 (* Structure/Placement.v -- the placement decision ladders of the scanner (C07):
    check_allowlist_violations (scanner/directory.rs:234-315), the placement half of
-   process_directory (:317-396), the list tests of scanner/allowlist.rs and
+   process_directory / check_directory_placement, the list tests of scanner/allowlist.rs and
    scanner/structure_config.rs, and find_matching_allowlist_rule (structure_config.rs:326).
    Rule selection is last-declared-match (the D6 repair, fixes/D06-placement-last-match.patch). Definitions only. *)
 From Coq Require Import ZArith NArith List Bool.
@@ -121,48 +121,61 @@ Definition file_ladder (cfg : config) (name : str) (c : cols) (pscope : list boo
       end
   end.
 
-(* ---- directory ladder: up to three violations, in the order the code pushes them ---- *)
-Definition dir_ladder (cfg : config) (c : cols) (pscope : list bool) : list (vkind * rref) :=
+(* ---- directory ladder (check_directory_placement, fixes/D48): at most one violation, the first clause
+   that applies reports and returns ---- *)
+Definition dir_ladder (cfg : config) (c : cols) (pscope : list bool) : option (vkind * rref) :=
   let mr := find_rule cfg pscope (c_r c) in
   let g := c_g c in
-  let global_part : list (vkind * rref) :=
+  let global_step : option (vkind * rref) :=
     if has_global_dir_allowlist cfg then
-      if negb (g_allow_dirs g) then [(VDisallowedDir, RGlobal)] else []
+      if negb (g_allow_dirs g) then Some (VDisallowedDir, RGlobal) else None
     else
       let overridden :=
         match mr with
         | Some (_, r, rc) => r_has_dir_allowlist r && r_allow_dirs rc
         | None => false
         end in
-      if overridden then []
-      else (match dir_matches_global_deny g with Some m => [(VDeniedDir m, RGlobal)] | None => [] end)
-           ++ (match dir_matches_global_deny_basename g with Some m => [(VDeniedDir m, RGlobal)] | None => [] end) in
-  let rule_part : list (vkind * rref) :=
-    match mr with
-    | None => []
-    | Some (i, r, rc) =>
-        if r_has_dir_allowlist r then
-          if negb (r_allow_dirs rc) then [(VDisallowedDir, RRule i)] else []
-        else match r_dir_matches_deny rc with
-             | Some m => [(VDeniedDir m, RRule i)]
-             | None => []
-             end
-    end in
-  global_part ++ rule_part.
+      if overridden then None
+      else match dir_matches_global_deny g with
+           | Some m => Some (VDeniedDir m, RGlobal)
+           | None => match dir_matches_global_deny_basename g with
+                     | Some m => Some (VDeniedDir m, RGlobal)
+                     | None => None
+                     end
+           end in
+  match global_step with
+  | Some v => Some v
+  | None =>
+      match mr with
+      | None => None
+      | Some (i, r, rc) =>
+          if r_has_dir_allowlist r then
+            if negb (r_allow_dirs rc) then Some (VDisallowedDir, RRule i) else None
+          else match r_dir_matches_deny rc with
+               | Some m => Some (VDeniedDir m, RRule i)
+               | None => None
+               end
+      end
+  end.
 
-(* ---- violations one walked entry contributes (process_file / process_directory) ---- *)
+(* ---- violations one walked entry contributes (process_file / process_directory).  A count-excluded file
+   is placed like any other (fixes/D49); the project root is exempt from the directory lists
+   (fixes/D51: its normalised path is empty) ---- *)
 Definition entry_violations (cfg : config) (e : entry) : list violation :=
   match e_kind e with
   | KFile =>
       if scan_excluded (e_cols e) false then []
-      else if count_excluded (e_cols e) then []          (* placement is skipped for count-excluded files *)
       else match file_ladder cfg (e_name e) (e_cols e) (e_pplc e) with
            | Some (k, rr) => [mkv (e_path e) k 0 rr]
            | None => []
            end
   | KDir =>
       if scan_excluded (e_cols e) true then []
-      else map (fun kr => mkv (e_path e) (fst kr) 0 (snd kr)) (dir_ladder cfg (e_cols e) (e_pplc e))
+      else if is_project_root (e_path e) then []
+      else match dir_ladder cfg (e_cols e) (e_pplc e) with
+           | Some (k, rr) => [mkv (e_path e) k 0 rr]
+           | None => []
+           end
   | KOther => []
   end.
 
